@@ -172,24 +172,24 @@ def match_dihedral_interaction_types(atoms, interaction_dict):
         a tuple of 4 atom indices, which are the matching key
         to the interaction dict.
     """
-    patterns = [(0, 1, 2, 3),
-                ('X', 1, 2, 3),
-                (0, 'X', 2, 3),
-                (0, 1, 'X', 3),
-                ('X', 1, 2, 'X'),
-                ('X', 'X', 2, 3),
-                (0, 'X', 'X', 3),
-                ('X', 1, 'X', 3),
-                ('X', 'X', 'X', 3)]
+    atoms = tuple(atoms)
+    best_key = None
+    best_wildcards = None
+    # the most specific type (fewest wildcards) that matches the atoms listed
+    # in either direction wins; among equally specific types the one defined
+    # first is used, so the result does not depend on the listing direction
+    for key in interaction_dict:
+        if len(key) != len(atoms):
+            continue
+        for candidate in (atoms, atoms[::-1]):
+            if all(ref in ('X', atom) for ref, atom in zip(key, candidate)):
+                wildcards = sum(1 for ref in key if ref == 'X')
+                if best_wildcards is None or wildcards < best_wildcards:
+                    best_key = key
+                    best_wildcards = wildcards
+                break
 
-    for pattern in patterns:
-        key = _wildcard_dih(atoms, pattern)
-        if key in interaction_dict:
-            return key
-        elif key[::-1] in interaction_dict:
-            return key[::-1]
-
-    return None
+    return best_key
 
 
 class Topology(System):
